@@ -64,3 +64,16 @@ func init() {
 	addMutant(mutant{Name: "silent/rename-header-functions", Silent: true,
 		Edits: []edit{{"segment/format.go", "func writeFileHeader(", "func putFileHeader("}, {"segment/writer.go", "writeFileHeader(w.writer.commitBuf, w.info)", "putFileHeader(w.writer.commitBuf, w.info)"}}})
 }
+
+func init() {
+	addMutant(mutant{Name: "crc/update-skips-padding", Fire: []string{"TAB-10"},
+		Edits: []edit{{"segment/writer.go", "	w.writer.crc = crc32.Update(w.writer.crc, castagnoliTable, w.writer.commitBuf[bufOffset:bufOffset+l])\n	return bufOffset, nil", "	w.writer.crc = crc32.Update(w.writer.crc, castagnoliTable, w.writer.commitBuf[bufOffset:bufOffset+frameHeaderLen+len(data)])\n	return bufOffset, nil"}}})
+	addMutant(mutant{Name: "crc/index-frame-not-in-crc", Fire: []string{"TAB-10"},
+		Edits: []edit{{"segment/writer.go", "	// Update crc with those values\n	w.writer.crc = crc32.Update(w.writer.crc, castagnoliTable, w.writer.commitBuf[startOff:startOff+l])\n", ""}}})
+	addMutant(mutant{Name: "crc/reset-before-sync", Fire: []string{"TAB-10"},
+		Edits: []edit{{"segment/writer.go", "	// Flush all writes to the file\n	if err := w.sync(); err != nil {\n		return err\n	}\n\n	// Finally, reset crc so that by the time we write the next trailer\n	// we'll know where the append batch started.\n	w.writer.crc = 0\n	return nil", "	w.writer.crc = 0\n	// Flush all writes to the file\n	if err := w.sync(); err != nil {\n		return err\n	}\n	return nil"}}})
+	addMutant(mutant{Name: "crc/never-reset", Fire: []string{"TAB-10"},
+		Edits: []edit{{"segment/writer.go", "	// Finally, reset crc so that by the time we write the next trailer\n	// we'll know where the append batch started.\n	w.writer.crc = 0\n", ""}}})
+	addMutant(mutant{Name: "crc/commit-frame-zero-crc", Fire: []string{"TAB-10"},
+		Edits: []edit{{"segment/writer.go", "		typ: FrameCommit,\n		crc: w.writer.crc,\n", "		typ: FrameCommit,\n"}}})
+}
